@@ -264,6 +264,22 @@ class ClassView:
                     self.bad(p if p is not None else n, "bare use of self that I do not understand (aliasing?)")
         return sorted(assigned), sorted(mutated), sorted(escapes)
 
+    def validate_resets(self, roots):
+        """methods in the closure of `roots` that call `validate_data(self, ..)` without the literal `reset=False`: sklearn's
+        default `reset=True` REWRITES `n_features_in_` / `feature_names_in_` of the estimator from the array it is given"""
+        out = set()
+        for mn in self.closure(roots):
+            for n in ast.walk(self.methods[mn]):
+                if isinstance(n, ast.Call) and ast.unparse(n.func).split(".")[-1] in ("validate_data", "_validate_data") \
+                        and any(_is_self(a) for a in n.args):
+                    kw = {k.arg: k.value for k in n.keywords}
+                    if None in kw:
+                        self.bad(n, "validate_data(self, .., **kwargs): cannot see `reset`")
+                    r = kw.get("reset")
+                    if not (isinstance(r, ast.Constant) and r.value is False):
+                        out.add(mn)
+        return sorted(out)
+
     # ------------------------------------------------------------------ return analysis
     def returns(self, roots):
         out = set()
@@ -981,7 +997,7 @@ def analyse(repo):
                          fitReceivers=cv.receivers(roots), fitHistoryReads=hist, initDerivedReads=initd,
                          initDerivedDeps=cv.init_derived(),
                          fitDefinitelyAssigned=cv.definitely_assigned("fit") if tag != "LAG" else [],
-                         predictReads=cv.fitted_reads(pmeth))
+                         predictReads=cv.fitted_reads(pmeth), predictValidateResets=cv.validate_resets(pmeth))
     latch = _moment_latch(repo)
     cons = {}
     for tag in ("EG", "GS"):
@@ -1039,6 +1055,9 @@ def lifecycle_src(repo):
                  "`self.<name>` rebound or stored into in the closure of the prediction entry points")
     src += table("predictSelfEscapes", "List String", lambda d: slist(d["predictSelfEscapes"]),
                  "callees that receive the bare `self` in the closure of the prediction entry points")
+    src += table("predictValidateResets", "List String", lambda d: slist(d["predictValidateResets"]),
+                 "methods of that closure that call `validate_data(self, ..)` WITHOUT `reset=False` (sklearn then rewrites "
+                 "`n_features_in_` / `feature_names_in_` of the estimator from the array to predict on)")
     src += f"/-- some `load_data` under fairlearn/reductions/_moments refuses a second call ({', '.join(latch) or 'none'}) -/\n"
     src += f"def momentLatch : Bool := {'true' if latch else 'false'}\n\n"
     src += "/-- fit calls `load_data` on the object behind the `constraints` parameter itself -/\n"
@@ -1104,6 +1123,7 @@ def lifecycle_src(repo):
             "initDerivedReads": {t: data[t]["initDerivedReads"] for t in tags if data[t]["initDerivedReads"]},
             "constraints": {t: ("inPlace" if v[0] else "copied") for t, v in cons.items()},
             "adv": {"reinit": reinit, "setup": setup, "keep": keep},
+            "predictValidateResets": {t: data[t]["predictValidateResets"] for t in tags if data[t]["predictValidateResets"]},
             "helperPredictCalls": {t: est_h[t]["calls"] for t in tags if est_h[t]["calls"]},
             "helperPredictClosure": {t: hfacts[t]["closure"] for t in htags},
             "helperPredictWrites": {t: hfacts[t]["writes"] for t in htags if hfacts[t]["writes"]},
